@@ -17,13 +17,13 @@ import XjsModel.Props.C15
     (1) source → tree keeps every token: the tokens of the tree are the tokens of the accepted source (C12);
     (2) tree → compact output does not depend on trivia (comments, blank lines) nor on whether a source map is
         requested (C15, C14), and compiling is a function of (configuration, tree);
-    (3) the operator core is printed with exactly the parentheses that make the printed tokens parse back to the
-        same tree (C03) — so for expressions of the operator core, source tree = tree of the output;
+    (3) expressions without function / object literals are printed with exactly the parentheses that make the
+        printed tokens parse back to the same tree (C03) — so for those, source tree = tree of the output;
     (4) an error-free tree is complete and compiles in every configuration without failing (C11).
   Known findings in the oracle: nosemi-hazard (D6), restricted-production (D2), trim-in-literal (D5).
 -/
 namespace Xjs.C01
-open Xjs Xjs.RT
+open Xjs Xjs.RTE
 
 /-- (1)+(4): an accepted program's tree carries exactly the source tokens and compiles in every configuration -/
 theorem accepted_source_is_faithfully_represented (cfg : PCfg) (toks : List Token) (r : ParseResult)
@@ -43,7 +43,7 @@ theorem compact_output_depends_on_tree_only (prog : StmtList) (sm : Bool) :
   | false => exact h1.symm
   | true => exact h2.trans h1.symm
 
-/-- (3): for the operator core, the tree of the output tokens is the printed tree -/
+/-- (3): for expressions without function / object literals, the tree of the output tokens is the printed tree -/
 theorem operator_core_round_trip (cfg : PCfg) (hc : BaseCfg cfg) (s : SE) (hw : s.wf = true)
     (st : PS) (rest : List Token) (hr : rest ≠ []) (ht : st.toks = s.toks ++ rest) (hstop : stops cfg LOWEST rest) :
     parseExpressionI cfg [] LOWEST st = some (s.tree, nextK (s.toks.length - 1) st) :=
